@@ -206,6 +206,18 @@ impl Rig {
         let tape: Rc<RefCell<Tape>> = Rc::new(RefCell::new(Tape::default()));
         let emits: Rc<RefCell<Vec<Vec<String>>>> = Rc::new(RefCell::new(vec![]));
         register_harness_commands(&mut commands, emits.clone(), tape.clone(), Rc::new(RefCell::new(false)));
+        // an embedder-style command that runs a nested script (its arguments are the lines) on a fresh
+        // context with the commands of the running script and the *same* halt flag
+        commands
+            .set(fn_command("sub", |c| {
+                let text = c.arguments.join("\n");
+                let mut ctx = Context::new();
+                ctx.commands = c.commands.clone();
+                let env = Env::new(Some(Box::new(Buf::default())), Some(Box::new(Buf::default())), Some(c.env.halt.clone()));
+                let _ = runner::run_script(&text, ctx, Some(env));
+                CommandResult::Continue(None)
+            }))
+            .expect("register sub");
         wrap_all(&mut commands, &probe);
         let base_wrapped = probe.wrapped.borrow().clone();
         Rig { commands, probe, tape, emits, base_wrapped }
@@ -268,6 +280,8 @@ struct RunObs {
 fn handwritten() -> Vec<(&'static str, String)> {
     let v: Vec<(&str, &str)> = vec![
         ("straight", "a = set 1\nb = set 2\nc = set 3\nd = set 4"),
+        ("nested-run-sharing-the-flag", "a = set 1\nsub \"b = set 1\" \"c = set 2\" \"d = set 3\"\ne = set 5\nf = set 6"),
+        ("nested-run-in-a-loop", "while less_than ${i} 3\ni = calc ${i} + 1\nsub \"b = set 1\" \"sub \\\"c = set 2\\\" \\\"d = set 3\\\"\" \"e = set 4\"\nend\nz = set done"),
         ("blank-and-labels", "a = set 1\n\n:l1\n# comment\nb = set 2\n:l2 c = set 3"),
         ("goto-loop-forever", ":top\ni = calc ${i} + 1\ngoto :top"),
         ("goto-forward", "goto :end\na = set skipped\n:end b = set 1\nc = set 2"),
@@ -303,8 +317,8 @@ fn handwritten() -> Vec<(&'static str, String)> {
 
 pub fn bounds(tier: Tier) -> Value {
     match tier {
-        Tier::Quick => json!({"handwritten_programs": 30, "generated_block_programs": "1-2 blocks, 3 answer tapes", "horizon_command_entries": 20, "setters": ["command itself", "second thread"]}),
-        Tier::Thorough => json!({"handwritten_programs": 30, "generated_block_programs": "1-3 blocks (all forests), 4 answer tapes", "horizon_command_entries": 60, "setters": ["command itself", "second thread"]}),
+        Tier::Quick => json!({"handwritten_programs": 32, "generated_block_programs": "1-2 blocks, 3 answer tapes", "horizon_command_entries": 20, "setters": ["command itself", "second thread"]}),
+        Tier::Thorough => json!({"handwritten_programs": 32, "generated_block_programs": "1-3 blocks (all forests), 4 answer tapes", "horizon_command_entries": 60, "setters": ["command itself", "second thread"]}),
     }
 }
 
@@ -381,7 +395,15 @@ fn check_program_at(w: &mut Worker, rig: &Rig, name: &str, text: &str, tape: &[(
                         ));
                         break 'outer;
                     }
-                    if obs.log[..] != base.log[..b.min(base.log.len())] {
+                    // a nested run started by the instruction in flight listens to the same flag and stops
+                    // at its own next boundary: the instruction in flight then ends early, by design
+                    let in_flight_nested = base.log[..k.min(base.log.len())].iter().rev().find(|(_, d)| *d == 0).map(|(n, _)| n == "sub").unwrap_or(false);
+                    let as_expected = if in_flight_nested {
+                        base.log[..b.min(base.log.len())].starts_with(&obs.log[..])
+                    } else {
+                        obs.log[..] == base.log[..b.min(base.log.len())]
+                    };
+                    if !as_expected {
                         failure = Some(("instruction-in-flight-not-completed".into(), what(format!("log {:?}, expected {:?}", obs.log, &base.log[..b])), k, setter));
                         break 'outer;
                     }
@@ -522,7 +544,7 @@ pub fn crash_sig(_case: &Value, kind: &str) -> String {
     kind.to_string()
 }
 
-pub const RULE: &str = "programs: 30 hand-written scripts over the standard library (straight line, goto loops, while true, for-in, nested loops, error path with on_error, functions plain/scoped/in condition position, script-implemented commands, alias, scope stack; 7 of them do not terminate) and the generated block programs of C04 under fixed answer tapes; every registered command (library, flow control, harness) is re-registered behind a wrapper that logs the entry with its nesting depth and is the scheduling point. For every command entry k of the unhalted run up to the horizon, top level or nested, plus k=0 (flag set before the run), the flag is raised at that point by the command itself and, separately, by a second OS thread the wrapper hands control to over a rendezvous channel. Oracle: the halted run returns Ok; its entry log equals the unhalted log up to the end of the top-level instruction in flight; no further top-level instruction starts; returned variables and the collections behind the handle table equal those at that boundary of the unhalted run. evaluations = programs; transitions = runs; non-trivial = program with nested command entries or non-terminating. Scale cases: the flag raised 999 / 5000 (thorough also 5001 and 60000) command entries into an endless while loop, a loop nest and a loop calling a function, by the command itself and by the second thread";
+pub const RULE: &str = "programs: 32 hand-written scripts over the standard library (straight line, nested runs started by a command on the same halt flag, goto loops, while true, for-in, nested loops, error path with on_error, functions plain/scoped/in condition position, script-implemented commands, alias, scope stack; 7 of them do not terminate) and the generated block programs of C04 under fixed answer tapes; every registered command (library, flow control, harness) is re-registered behind a wrapper that logs the entry with its nesting depth and is the scheduling point. For every command entry k of the unhalted run up to the horizon, top level or nested, plus k=0 (flag set before the run), the flag is raised at that point by the command itself and, separately, by a second OS thread the wrapper hands control to over a rendezvous channel. Oracle: the halted run returns Ok; its entry log equals the unhalted log up to the end of the top-level instruction in flight; no further top-level instruction starts; returned variables and the collections behind the handle table equal those at that boundary of the unhalted run. evaluations = programs; transitions = runs; non-trivial = program with nested command entries or non-terminating. Scale cases: the flag raised 999 / 5000 (thorough also 5001 and 60000) command entries into an endless while loop, a loop nest and a loop calling a function, by the command itself and by the second thread";
 pub const ASSUMPTIONS: &[&str] = &["the setter's only visible action is one SeqCst store on the shared AtomicBool; the runner's only visible actions on it are its polls, so placing the store at every command entry plus 'before the run' covers the interleaving space at command-entry granularity", "a store landing inside a single command's Rust body is indistinguishable from a store at its entry as long as commands do not read the flag"];
 pub const EXHAUSTIVE: bool = true;
 pub const WALL_CAP_S: (u64, u64) = (55, 1500);
